@@ -1,12 +1,13 @@
 #!/bin/bash
 # tools/seedtest.sh <patch.diff> <Cxx> [tier]  -- run a check against a scratch copy of /repo with a patch applied
-# (scratch copy under /tmp, removed afterwards; /repo itself is not touched)
+# (scratch copy under /tmp, removed afterwards; /repo itself is not touched). Uses the checkout this script lives in.
+here="$(cd "$(dirname "$0")/.." && pwd)"
 patch="$(realpath "$1")"; prop="$2"; tier="${3:-quick}"
 d=$(mktemp -d /tmp/pv-seed-XXXXXX)
-cp -r /repo/Pyro5 "$d/"; mkdir -p "$d/.g"; 
+cp -r /repo/Pyro5 "$d/"; [ -d /repo/certs ] && cp -r /repo/certs "$d/"
 ( cd "$d" && git init -q . && git apply --unsafe-paths "$patch" ) || { echo "patch failed"; rm -rf "$d"; exit 9; }
 rm -rf "$d/.git"
-VERIF_REPO="$d" /verif/check "$prop" --tier "$tier" 2>&1 | grep -E "verdict|^VIOLATION|mechanism=|^INCONCL|^KNOWN" | cut -c1-400 | head -${SEEDTEST_LINES:-8}
+VERIF_REPO="$d" "$here/check" "$prop" --tier "$tier" 2>&1 | grep -E "verdict|^VIOLATION|mechanism=|^INCONCL|^KNOWN" | cut -c1-400 | head -${SEEDTEST_LINES:-8}
 rc=${PIPESTATUS[0]}
 rm -rf "$d"
 exit $rc
